@@ -215,6 +215,62 @@ def class_level_stores():
     return sorted(set(sites))
 
 
+# ---- (c'') what a new element shares with the per-type container template
+def sharing_facts():
+    facts = {}
+    xe = parse('musicxml/xmlelement/xmlelement.py')
+    f = find_func(xe, 'XMLElement', '_create_child_container_tree')
+    if f is None:
+        raise Fail('_create_child_container_tree not found')
+    def is_copy_call(v):
+        if not isinstance(v, ast.Call):
+            return False
+        fn = v.func
+        if isinstance(fn, ast.Attribute) and fn.attr in ('copy', 'deepcopy', '__copy__', '__deepcopy__'):
+            return True
+        return isinstance(fn, ast.Name) and fn.id in ('copy', 'deepcopy')
+    assigns = [n for n in ast.walk(f) if isinstance(n, ast.Assign) and any(isinstance(t, ast.Attribute) and t.attr == '_child_container_tree' for t in n.targets)]
+    facts['P1_template_copied'] = bool(assigns) and all(is_copy_call(n.value) or (isinstance(n.value, ast.Constant) and n.value.value is None) for n in assigns)
+    cc = parse('musicxml/xmlelement/xmlchildcontainer.py')
+    f = find_func(cc, 'XMLChildContainer', '__copy__')
+    if f is None:
+        raise Fail('XMLChildContainer.__copy__ not found')
+    ok_new = False
+    ok_content = False
+    for n in ast.walk(f):
+        if isinstance(n, ast.Call) and isinstance(n.func, ast.Attribute) and n.func.attr == '__class__':
+            ok_new = True
+            for k in n.keywords:
+                if k.arg == 'content':
+                    ok_content = is_copy_call(k.value)
+    adds = [n for n in ast.walk(f) if isinstance(n, ast.Call) and isinstance(n.func, ast.Attribute) and n.func.attr == 'add_child']
+    ok_children = bool(adds) and all(a.args and is_copy_call(a.args[0]) for a in adds)
+    facts['P2_container_copy_fresh'] = ok_new and ok_content and ok_children
+    el = parse('musicxml/xsd/xsdelement.py')
+    f = find_func(el, 'XSDElement', '__copy__')
+    if f is None:
+        raise Fail('XSDElement.__copy__ not found')
+    rets = [n for n in ast.walk(f) if isinstance(n, ast.Return)]
+    facts['P3_leaf_copy_is_new_instance'] = bool(rets) and all(isinstance(r.value, ast.Call) and isinstance(r.value.func, ast.Attribute) and r.value.func.attr == '__class__' for r in rets)
+    f = find_func(el, 'XSDElement', '__init__')
+    if f is None:
+        raise Fail('XSDElement.__init__ not found')
+    a = [n for n in ast.walk(f) if isinstance(n, ast.Assign) and any(isinstance(t, ast.Attribute) and t.attr == '_xml_elements' for t in n.targets)]
+    facts['P4_leaf_list_fresh'] = len(a) == 1 and ((isinstance(a[0].value, ast.List) and not a[0].value.elts) or
+                                                   (isinstance(a[0].value, ast.Call) and isinstance(a[0].value.func, ast.Name) and a[0].value.func.id == 'list' and not a[0].value.args))
+    # XMLElement.__init__ creates the per-instance mutable fields afresh
+    f = find_func(xe, 'XMLElement', '__init__')
+    fresh = {}
+    for n in ast.walk(f):
+        if isinstance(n, ast.Assign):
+            for t in n.targets:
+                if isinstance(t, ast.Attribute) and isinstance(t.value, ast.Name) and t.value.id == 'self' and t.attr in ('_attributes', '_unordered_children'):
+                    v = n.value
+                    fresh[t.attr] = (isinstance(v, (ast.List, ast.Dict)) and not (getattr(v, 'elts', None) or getattr(v, 'keys', None)))
+    facts['P5_element_fields_fresh'] = fresh.get('_attributes') is True and fresh.get('_unordered_children') is True
+    return facts
+
+
 # ---- (d) what __deepcopy__ rebuilds the copy from
 def deepcopy_ir():
     f = find_func(parse('musicxml/xmlelement/xmlelement.py'), 'XMLElement', '__deepcopy__')
@@ -307,6 +363,15 @@ def main():
     o.append('Inductive store_shape := SPublishThenFill | SSingleStore.')
     o.append('Definition class_level_stores : list (string * string * string * N * store_shape) := [' + ';\n '.join(
         '(%s, %s, %s, %d%%N, %s)' % (cq(f), cq(fn), cq(a), ln, 'S' + sh) for f, fn, _, _, a, ln, sh in cls_sites) + '].')
+    try:
+        sf = sharing_facts()
+        side['sharing'] = sf
+        o.append('Definition tr_sharing_ok := true.')
+        o.append('Definition sharing_facts : list (string * bool) := [' + '; '.join('(%s, %s)' % (cq(k), 'true' if v else 'false') for k, v in sorted(sf.items())) + '].')
+    except Fail as ex:
+        side['sharing'] = 'FAILED: ' + str(ex)
+        o.append('Definition tr_sharing_ok := false.')
+        o.append('Definition sharing_facts : list (string * bool) := [].')
     try:
         kw, later = deepcopy_ir()
         side['deepcopy'] = {'ctor_kwargs': kw, 'later': later}
